@@ -19,8 +19,11 @@ pub fn pcmp_a(a: &u8, b: &u8) -> Option<Ordering> { if *a == 255 || *b == 254 { 
 pub fn pcmp_b(a: &u8, b: &u8) -> Option<Ordering> { Some((b >> 1).cmp(&(a >> 1))) }
 pub fn hash_a<H: Hasher>(a: &u8, h: &mut H) { h.write_u8(*a & 3); h.write_u8(0xA5) }
 pub fn hash_b<H: Hasher>(a: &u8, h: &mut H) { h.write_u16((*a as u16) >> 1) }
-pub fn clone_a(a: &u8) -> u8 { a.wrapping_add(1) }
-pub fn clone_b(a: &u8) -> u8 { a ^ 0x55 }
+/// calls of the custom clone methods since the last ctr_reset()
+pub static mut MCALLS: u8 = 0;
+pub fn clone_a(a: &u8) -> u8 { unsafe { MCALLS = MCALLS.wrapping_add(1); } a.wrapping_add(1) }
+pub fn clone_b(a: &u8) -> u8 { unsafe { MCALLS = MCALLS.wrapping_add(1); } a ^ 0x55 }
+pub fn mcalls() -> u8 { unsafe { MCALLS } }
 pub fn into_a(a: u8) -> u16 { a as u16 + 1000 }
 pub fn into_b(a: u8) -> u32 { ((a as u32) << 2) | 1 }
 pub fn into_c(a: u16) -> u16 { a ^ 0x00ff }
@@ -43,7 +46,7 @@ impl<const ID: usize> Clone for Ctr<ID> {
     fn clone(&self) -> Self { unsafe { CTR[ID] = CTR[ID].wrapping_add(1); } Ctr(self.0) }
 }
 impl<const ID: usize> Copy for Ctr<ID> {}
-pub fn ctr_reset() { unsafe { CTR = [0; 6]; } }
+pub fn ctr_reset() { unsafe { CTR = [0; 6]; MCALLS = 0; } }
 pub fn ctr_counts() -> [u8; 6] { unsafe { CTR } }
 
 pub type Off = i64;
@@ -214,6 +217,9 @@ impl Val for crate::m::K { fn draw<S: Src>(s: &mut S) -> Self { crate::m::K(s.u6
 impl<const ID: usize> Val for crate::m::Ctr<ID> { fn draw<S: Src>(s: &mut S) -> Self { crate::m::Ctr(s.u8()) } }
 impl Val for crate::m::Adv { fn draw<S: Src>(s: &mut S) -> Self { crate::m::Adv(s.u8()) } }
 impl Val for &'static Box<u8> { fn draw<S: Src>(s: &mut S) -> Self { Box::leak(Box::new(Box::new(s.u8()))) } }
+/// wide raw pointers into one static buffer: same address with different lengths, different addresses
+pub static PBUF: [u8; 4] = [1, 2, 3, 4];
+impl Val for *const [u8] { fn draw<S: Src>(s: &mut S) -> Self { let o = (s.u8() & 1) as usize; let n = (s.u8() & 1) as usize + 1; &PBUF[o..o + n] as *const [u8] } }
 impl Val for Box<u8> { fn draw<S: Src>(s: &mut S) -> Self { Box::new(s.u8()) } }
 impl Val for &'static mut u8 { fn draw<S: Src>(s: &mut S) -> Self { Box::leak(Box::new(s.u8())) } }
 impl Val for crate::m::Inc { fn draw<S: Src>(s: &mut S) -> Self { crate::m::Inc(s.u8()) } }
@@ -277,7 +283,7 @@ pub trait IsNotCopy { fn is_copy(&self) -> bool; }
 impl<T> IsNotCopy for &Probe<T> { fn is_copy(&self) -> bool { false } }
 pub trait Same { fn same(&self, o: &Self) -> bool; }
 macro_rules! same_eq { ($($t:ty),*) => { $(impl Same for $t { fn same(&self, o: &Self) -> bool { self == o } })* } }
-same_eq!(u8, u16, u32, u64, usize, i8, i16, i32, i64, isize, bool, char, (), &'static str, String, crate::m::K, crate::m::W, Option<u8>, [u8; 4], [u8; 2], &'static u8, &'static [u8; 2], crate::m::Adv, Option<bool>, crate::m::Num);
+same_eq!(u8, u16, u32, u64, usize, i8, i16, i32, i64, isize, bool, char, (), &'static str, String, crate::m::K, crate::m::W, Option<u8>, [u8; 4], [u8; 2], &'static u8, &'static [u8; 2], crate::m::Adv, Option<bool>, crate::m::Num, *const [u8]);
 impl Same for f32 { fn same(&self, o: &Self) -> bool { self.to_bits() == o.to_bits() } }
 impl Same for f64 { fn same(&self, o: &Self) -> bool { self.to_bits() == o.to_bits() } }
 impl<const ID: usize> Same for crate::m::Ctr<ID> { fn same(&self, o: &Self) -> bool { self.0 == o.0 } }
